@@ -7,7 +7,7 @@
 (* textbook formulas are held by the specification (CODATA 2014, the set   *)
 (* the library documents).                                                 *)
 (***************************************************************************)
-EXTENDS Dec, TLC, TLCExt, Json, IOUtils
+EXTENDS Dec, StatMechSig, TLC, TLCExt, Json, IOUtils
 
 TraceLog == ndJsonDeserialize(IOEnv.TRACE_FILE)
 VARIABLES l
@@ -23,6 +23,17 @@ Three == <<3, 0>>
 \* errors per mode, so values below ~1e-11 cannot be compared relatively (scale operand 1e-6, k = 6)
 Tiny == <<1, -6>>
 NineQ == <<225, -2>>            \* 9/4
+\* the gas constant in every unit of the documented table of pmutt.constants.R (CODATA 2014)
+RTable == ("J/mol/K" :> <<83144598, -7>>) @@ ("kJ/mol/K" :> <<83144598, -10>>) @@ ("L kPa/mol/K" :> <<83144598, -7>>)
+          @@ ("cm3 kPa/mol/K" :> <<83144598, -4>>) @@ ("m3 Pa/mol/K" :> <<83144598, -7>>)
+          @@ ("cm3 MPa/mol/K" :> <<83144598, -7>>) @@ ("m3 bar/mol/K" :> <<83144598, -12>>)
+          @@ ("L bar/mol/K" :> <<83144598, -9>>) @@ ("L torr/mol/K" :> <<62363577, -6>>)
+          @@ ("cal/mol/K" :> <<19872036, -7>>) @@ ("kcal/mol/K" :> <<19872036, -10>>)
+          @@ ("L atm/mol/K" :> <<82057338, -9>>) @@ ("cm3 atm/mol/K" :> <<82057338, -6>>)
+          @@ ("eV/K" :> <<86173303, -12>>) @@ ("Eh/K" :> <<31668105, -13>>) @@ ("Ha/K" :> <<31668105, -13>>)
+RKcal == RTable["kcal/mol/K"]
+RECURSIVE PowD(_, _)
+PowD(z, n) == IF n = 0 THEN One ELSE Mul(z, PowD(z, n - 1))
 
 Idx(s) == 1..Len(s)
 SumOver(s) == SumSeq(s)
@@ -53,13 +64,21 @@ ThermoClauses(e) ==
                  THEN {"dSdT_KnownDebyeShift"} ELSE {"dSdT"})
       \cup Chk(CloseIn(dSP, IF e.hasTrans THEN Neg(e.lnP) ELSE Zero, {e.sP2, S}, 7), "EntropyPressure")
 
-\* ---- verbose vector: e.g getter, e.tot, e.parts, e.direct (first five entries by direct mode calls)
+\* ---- verbose vector: e.g getter, e.tot, e.parts, e.direct (first five entries by direct mode calls),
+\* e.nmisc / e.dmisc (the extra models of the species and their direct calls; a hole contributes the default),
+\* e.hasRefs / e.refs (the species carries a References object; what the references slot must hold)
 VerboseClauses(e) ==
    Chk(IF e.g = "q" THEN Close(e.tot, ProdSeq(e.parts), 6)
        ELSE CloseIn(e.tot, SumSeq(e.parts), SetOf(e.parts), 7),
        IF e.g = "q" THEN "ProdOfVerbose" ELSE "SumOfVerbose")
    \cup Chk(Len(e.parts) >= 6 /\ \A k \in 1..5 : e.parts[k] = e.direct[k], "VerboseMatchesMode")
-   \cup Chk(e.norefs = e.tot, "ReferencesSwitchNoRefs")
+   \cup Chk(e.nmisc >= 1 => /\ Len(e.parts) = 6 + e.nmisc
+                            /\ \A j \in 1..e.nmisc : (6 + j <= Len(e.parts)) => e.parts[6 + j] = e.dmisc[j],
+            "VerboseMatchesMiscModel")
+   \cup (IF e.hasRefs
+         THEN Chk(/\ CloseIn(Sub(e.tot, e.norefs), e.refs, {e.tot, e.norefs}, 6)
+                  /\ Len(e.parts) >= 6 /\ CloseIn(e.parts[6], e.refs, {e.tot, e.norefs}, 6), "ReferencesSlotIsOffset")
+         ELSE Chk(e.norefs = e.tot, "ReferencesSwitchNoRefs"))
 
 \* ---- option combinations on a species that carries a References object (enthalpy offset):
 \* e.T, e.refoff (expected H/RT(with references) - H/RT(without) = -sum(offset n) T_ref / T, harness witness
@@ -88,6 +107,15 @@ OptClauses(e) ==
                     \* the element entropy leaves S and enters G and F with the opposite sign
                     /\ CloseIn(Sub(b.S, a.S), Sub(a.G, b.G), {a.S, b.S, a.G, b.G}, 6)
                     /\ CloseIn(Sub(b.S, a.S), Sub(a.F, b.F), {a.S, b.S, a.F, b.F}, 6), "SelementsActsOnSGF")
+      \* the dimensional getters are the dimensionless ones times R (times T) in the requested unit (e.unit, every
+      \* unit of the documented table; per-mass units are judged by the identities above only)
+      \cup (IF e.perMass THEN {} ELSE
+            LET Ru == RTable[e.unit]  RT == Mul(e.T, Ru) IN
+            Chk(\A i \in Idx(R) : /\ Close(R[i].Hd, Mul(R[i].H, RT), 6) /\ Close(R[i].Gd, Mul(R[i].G, RT), 6)
+                                   /\ Close(R[i].Ud, Mul(R[i].U, RT), 6) /\ Close(R[i].Fd, Mul(R[i].F, RT), 6)
+                                   /\ Close(R[i].Sd, Mul(R[i].S, Ru), 7) /\ Close(R[i].Cvd, Mul(R[i].Cv, Ru), 7)
+                                   /\ Close(R[i].Cpd, Mul(R[i].Cp, Ru), 7), "OptDimScale"))
+      \cup Chk(\A i \in Idx(R) : CloseIn(R[i].Hd, SumSeq(R[i].Hvec), SetOf(R[i].Hvec), 7), "OptDimVerbose")
 
 \* the same with S_elements = TRUE (entropy of the elements subtracted): e.tot / e.parts with the option,
 \* e.tot0 / e.parts0 without it.  The total must drop by one amount S_ele and still be the sum of the
@@ -96,8 +124,11 @@ OptClauses(e) ==
 SelClauses(e) ==
    LET sele == Sub(e.tot0, e.tot)
        sumOK == CloseIn(e.tot, SumSeq(e.parts), SetOf(e.parts), 7)
+       \* every entry shifted by the amount S_ele (e.selref, the shift the total must show once); each difference is
+       \* judged at the magnitude of its own entry (an electronic entry of 1e5 carries 1e-4 of rounding)
        everyEntry == /\ Len(e.parts) = Len(e.parts0)
-                     /\ \A k \in Idx(e.parts) : CloseIn(e.parts[k], Sub(e.parts0[k], sele), {e.parts0[k], sele}, 7)
+                     /\ \A k \in Idx(e.parts) : CloseIn(Sub(e.parts0[k], e.parts[k]), e.selref,
+                                                         {e.parts0[k], e.parts[k], e.selref}, 6)
    IN Chk(CloseIn(e.tot0, SumSeq(e.parts0), SetOf(e.parts0), 7), "SumOfVerbose")
       \cup (IF sumOK THEN {}
             ELSE IF everyEntry THEN {"SumOfVerbose_KnownSelementsInEveryEntry"} ELSE {"SumOfVerboseSelements"})
@@ -140,6 +171,7 @@ HarmonicClauses(e) ==
          \cup Chk(Close(Mul(e.q, den), num, 5), "HarmonicTextbookQ")
          \cup Chk(Close(Mul(e.qnz, den), One, 5), "HarmonicTextbookQnoZPE")
          \cup Chk(Close(Mul(I(2), e.ZPE), zpe2, 6), "HarmonicZPE")
+         \cup Chk(e.qdef = e.q, "HarmonicQDefaultIncludesZPE")
 
 EinsteinClauses(e) ==
    LET uth == Mul(Three, Uho(e.x, e.y))
@@ -148,6 +180,8 @@ EinsteinClauses(e) ==
                "EinsteinTextbookU")
       \cup Chk(CloseIn(e.S, Mul(Three, Sho(e.x, e.y, e.lg)), {Tiny}, 6), "EinsteinTextbookS")
       \cup Chk(CloseIn(e.Cv, Mul(Three, Cho(e.x, e.y)), {Tiny}, 6), "EinsteinTextbookCv")
+      \* u0 = u + 3/2 kB theta
+      \cup Chk(CloseIn(e.ZPE, Add(e.u, Mul(<<15, -1>>, Mul(KB, e.theta))), {e.u, Mul(KB, e.theta)}, 6), "EinsteinZPE")
 
 \* Debye: D3 = (3/x^3) int_0^x t^3/(e^t - 1) dt is a quadrature witness of the TEXTBOOK integrand
 DebyeClauses(e) ==
@@ -165,6 +199,8 @@ DebyeClauses(e) ==
             ELSE IF CloseIn(e.S, Add(sth, shift), {Mul(I(4), e.D3), Mul(Three, e.lg), shift, Tiny}, 6)
                  THEN {"DebyeTextbookS_KnownShift"} ELSE {"DebyeTextbookS"})
       \cup Chk(CloseIn(e.Cv, cth, {Mul(I(12), e.D3), Mul(I(9), Mul(e.x, e.y)), Tiny}, 6), "DebyeTextbookCv")
+      \* u0 = u + 9/8 kB theta
+      \cup Chk(CloseIn(e.ZPE, Add(e.u, Mul(<<1125, -3>>, Mul(KB, e.theta))), {e.u, Mul(KB, e.theta)}, 6), "DebyeZPE")
 
 \* quasi-RRHO: w = 1 / (1 + (v0/nu)^4) (witness), ls = 1/2 ln(8 pi^3 mu' kB T / h^2) (sensor)
 QrrhoClauses(e) ==
@@ -172,7 +208,7 @@ QrrhoClauses(e) ==
        n == Len(nu)
    IN IF Len(e.x) # n \/ Len(e.w) # n \/ Len(e.omw) # n \/ Len(e.ls) # n \/ Len(e.om) # n THEN {"ValidWavenumbers"}
       ELSE
-      LET p4(z) == Mul(Mul(z, z), Mul(z, z))
+      LET p4(z) == PowD(z, e.alpha)                   \* (v0/nu)^alpha, alpha logged (documented default 4)
           wit == \A i \in 1..n : /\ WitX(e.x[i], Mul(C2, nu[i]), e.T)
                                  /\ WitY(e.y[i], e.ex[i], e.om[i])
                                  /\ CloseIn(Mul(e.w[i], Add(p4(nu[i]), p4(e.v0))), p4(nu[i]), {p4(nu[i]), p4(e.v0)}, 6)
@@ -185,7 +221,10 @@ QrrhoClauses(e) ==
       IN Chk(wit, "WITNESS")
          \cup Chk(CloseIn(e.U, SumSeq(us), SetOf(us), 6), "QRRHOTextbookU")
          \cup Chk(CloseIn(e.S, SumSeq(ss), SetOf(ss) \cup SetOf(e.ls) \cup SetOf(e.lg) \cup {Tiny}, 6), "QRRHOTextbookS")
-         \cup Chk(CloseIn(e.Cv, SumSeq(cs), SetOf(cs), 6), "QRRHOTextbookCv")
+         \* absolute floor as for the harmonic Cv: with alpha = 6 and nu >> v0 the library's 1 - w cancels to ~1e-12
+         \cup Chk(CloseIn(e.Cv, SumSeq(cs), SetOf(cs) \cup {Tiny}, 6), "QRRHOTextbookCv")
+         \* 2 ZPE = kB sum_i w_i theta_i
+         \cup Chk(Close(Mul(I(2), e.ZPE), Mul(KB, Mul(C2, Dot(e.w, nu))), 6), "QRRHOZPE")
 
 \* rigid rotor: lq = ln(q_textbook) sensor from the logged arguments
 RotorClauses(e) ==
@@ -230,6 +269,104 @@ ElecClauses(e) ==
    \cup Chk(CloseIn(e.S, e.lg, {e.lg, One}, 7), "GroundStateDegeneracy")
    \cup Chk(IsZero(e.Cv) /\ IsZero(e.Cp), "GroundStateNoCp")
 
+\* ---- raise_error / raise_warning: one getter of a species (e.g \in Getters, or "ZPE" through get_quantity),
+\* e.kinds / e.have (mode kind per slot, the getters a user-written partial mode defines), e.op ("sum" | "prod"),
+\* e.direct (direct mode calls, the default where the mode lacks the method), e.dim (dimensional wrapper),
+\* e.rows = one record per (raise_error, raise_warning): [re, rw, out, nwarn, vec].  Documented: raise_error
+\* raises AttributeError when a mode lacks the quantity; otherwise the mode contributes the default (0, 1 for a
+\* product) and a RuntimeWarning is issued iff raise_warning.  Which slot lacks what: StatMechSig.tla.
+MissingClauses(e) ==
+   LET haves == [k \in 1..5 |-> SetOf(e.have[k])]
+       lack == LackSet(e.kinds, haves, e.g)
+       dflt == I(DefaultOf(e.op))
+       R == e.rows
+       exp(r) == Outcome(e.kinds, haves, e.g, r.re)
+   IN Chk(\A i \in Idx(R) : exp(R[i]) = "AttributeError" => R[i].out = "AttributeError", "MissingQuantityRaises")
+      \cup Chk(\A i \in Idx(R) : exp(R[i]) = "value" => R[i].out = "value", "MissingQuantityDefaulted")
+      \cup Chk(\A i \in Idx(R) : exp(R[i]) = "NotImplementedError" => R[i].out = "NotImplementedError",
+               "RefusedQuantityRaises")
+      \cup Chk(\A i \in Idx(R) : R[i].out = "value" =>
+                 /\ Len(R[i].vec) >= 5
+                 /\ \A k \in 1..5 : (k <= Len(R[i].vec)) =>
+                       IF k \in lack THEN (IF e.dim THEN IsZero(R[i].vec[k]) ELSE Close(R[i].vec[k], dflt, 8))
+                       ELSE (e.dim \/ R[i].vec[k] = e.direct[k]), "MissingUsesDefault")
+      \cup Chk(\A i \in Idx(R) : R[i].out = "value" =>
+                 ((R[i].nwarn > 0) <=> (WarnsExpected(lack, R[i].re, R[i].rw) \/
+                                        (~R[i].re /\ R[i].rw /\ e.nmiscLack > 0))), "WarningIffRequested")
+      \* the same call without verbose: same outcome, same warnings, the sum (product) of the vector
+      \cup Chk(\A i \in Idx(R) :
+                 (R[i].out0 = R[i].out)
+                 /\ ((R[i].nwarn0 > 0) <=> (R[i].nwarn > 0))
+                 /\ ((R[i].out = "value") =>
+                        (IF e.op = "prod" THEN Close(R[i].tot, ProdSeq(R[i].vec), 6)
+                         ELSE CloseIn(R[i].tot, SumSeq(R[i].vec), SetOf(R[i].vec), 7))),
+               "MissingTotalIsSumOfVector")
+
+\* ---- electronic energy of a species, include_ZPE: e.T, e.unit, e.elecKind / e.elecHave / e.vibKind,
+\* e.elecU (direct U/RT of the electronic mode), e.zpe (direct zero-point energy of the vibrational mode, eV;
+\* its textbook value is judged on the mode events), e.rows = one record per (include_ZPE, raise_error,
+\* raise_warning): [izpe ("default" | "on" | "off"), re, rw, out, nwarn, val, outd, nwarnd, vald]
+EnergyClauses(e) ==
+   LET lackE == Lacks(e.elecKind, SetOf(e.elecHave), "U")
+       lackZ(r) == r.izpe = "on" /\ ~HasZPE(e.vibKind)
+       expOut(r) == IF r.re /\ (lackE \/ lackZ(r)) THEN "AttributeError" ELSE "value"
+       kT == Mul(KB, e.T)
+       base == IF lackE THEN Zero ELSE e.elecU
+       R == e.rows
+       twin(r) == CHOOSE x \in SetOf(R) : x.izpe = "off" /\ x.re = r.re /\ x.rw = r.rw
+   IN Chk(\A i \in Idx(R) : R[i].out = expOut(R[i]) /\ R[i].outd = expOut(R[i]), "EnergyOutcome")
+      \cup Chk(\A i \in Idx(R) : R[i].out = "value" =>
+                 /\ ((R[i].nwarn > 0) <=> (~R[i].re /\ R[i].rw /\ (lackE \/ lackZ(R[i]))))
+                 /\ ((R[i].nwarnd > 0) <=> (R[i].nwarn > 0)), "EnergyWarningIffRequested")
+      \* E = electronic U (+ ZPE / kB T when requested and the vibrational mode has one)
+      \cup Chk(\A i \in Idx(R) : R[i].out = "value" =>
+                 IF R[i].izpe = "on" /\ HasZPE(e.vibKind)
+                 THEN CloseIn(Mul(Sub(R[i].val, base), kT), e.zpe, {Mul(R[i].val, kT), Mul(base, kT), e.zpe}, 6)
+                 ELSE R[i].val = base, "EnergyIncludesZPE")
+      \cup Chk(\A i \in Idx(R) : (R[i].out = "value" /\ R[i].outd = "value") =>
+                 Close(R[i].vald, Mul(R[i].val, Mul(e.T, RTable[e.unit])), 6), "EnergyDimensional")
+      \cup Chk(\A i \in Idx(R) : R[i].izpe = "default" =>
+                 /\ R[i].out = twin(R[i]).out /\ R[i].val = twin(R[i]).val /\ R[i].vald = twin(R[i]).vald,
+               "IncludeZPEDefaultOff")
+
+\* ---- the same state with T and P given as Python int / numpy scalars (e.alts) instead of Python floats (e.v)
+ArgTypeClauses(e) ==
+   LET ok(a) == a.finite /\ \A j \in Idx(e.v) : Close(a.v[j], e.v[j], 8)
+       bad == {i \in Idx(e.alts) : ~ok(e.alts[i])}
+       \* known deviation, named exactly (proposed fix C01_rotor_int32_temperature): RigidRotor forms T**3 in the
+       \* type of T, which wraps for a numpy int32 temperature from 1291 K on; S (hence F, G) of a nonlinear rotor
+       \* is then wrong or not a number while Cv, Cp, U, H are untouched
+       int32wrap(a) == /\ a.t = "np.int32" /\ e.rotNonlinear /\ ~Lt(e.T, I(1291))
+                       /\ \A j \in 1..4 : Close(a.v[j], e.v[j], 8)
+   IN IF bad = {} THEN {}
+      ELSE IF \A i \in bad : int32wrap(e.alts[i]) THEN {"ArgumentTypeInvariant_KnownInt32RotorOverflow"}
+      ELSE {"ArgumentTypeInvariant"}
+
+\* ---- a species built through the constructor's keyword routing (classes + flat keywords, presets) and from
+\* mode objects: the verbose vectors (e.rows[i].a / .b) of every getter are the same numbers
+RoutedClauses(e) ==
+   Chk(\A i \in Idx(e.rows) : e.rows[i].a = e.rows[i].b, "RoutedEqualsInstances")
+
+\* ---- linear scaling relation used as the electronic model: U R T = slope dE_ref + intercept + E_surf + E_gas
+\* (kcal/mol).  e.sub = what the reference reaction, the surface and the gas species held by the relation
+\* report; for inputs given as objects (e.objects) those are tied to the logged ground-state energies (eV):
+\* E_kcal kB = E_eV R_kcal
+LsrClauses(e) ==
+   LET kT == Mul(RKcal, e.T)
+       t1 == Mul(e.slope, e.sub[1])
+       comp == Add(Add(t1, e.intercept), Add(e.sub[2], e.sub[3]))
+       pr == [i \in Idx(e.eP) |-> Mul(e.nP[i], e.eP[i])]
+       rr == [i \in Idx(e.eR) |-> Mul(e.nR[i], e.eR[i])]
+       dE == Sub(SumSeq(pr), SumSeq(rr))
+       scl == {Mul(x, RKcal) : x \in SetOf(pr) \cup SetOf(rr)}
+   IN Chk(CloseIn(Mul(e.U, kT), comp, {t1, e.intercept, e.sub[2], e.sub[3]}, 6), "LSRLinearScaling")
+      \cup Chk(IsZero(e.S) /\ IsZero(e.Cv) /\ IsZero(e.Cp) /\ e.H = e.U /\ e.F = e.U /\ e.G = e.U, "LSRNoEntropy")
+      \cup (IF e.objects
+            THEN Chk(/\ CloseIn(Mul(e.sub[1], KB), Mul(dE, RKcal), scl, 6)
+                     /\ Close(Mul(e.sub[2], KB), Mul(e.eS, RKcal), 6)
+                     /\ Close(Mul(e.sub[3], KB), Mul(e.eG, RKcal), 6), "LSRReferenceEnergies")
+            ELSE {})
+
 \* geometry: derived parameters before (a) and after (b) a rigid motion / permutation
 GeomClauses(e) ==
    Chk(e.a.geom = e.b.geom, "GeometryInvariant")
@@ -253,6 +390,11 @@ Clauses(e) ==
      [] e.ev = "trans" -> TransClauses(e)
      [] e.ev = "elec" -> ElecClauses(e)
      [] e.ev = "geometry" -> GeomClauses(e)
+     [] e.ev = "missing" -> MissingClauses(e)
+     [] e.ev = "energy" -> EnergyClauses(e)
+     [] e.ev = "argtype" -> ArgTypeClauses(e)
+     [] e.ev = "routed" -> RoutedClauses(e)
+     [] e.ev = "lsr" -> LsrClauses(e)
      [] OTHER -> {"UnknownEvent"}
 
 Init == l = 1 /\ TLCSet(1, {})
